@@ -36,6 +36,7 @@ type Interpreter struct {
 	rateCounters  map[string]*value.Ratecounter
 	penaltyBoxes  map[string]*value.Penaltybox
 	callStack     []*ast.SubroutineDeclaration
+	includeChain  []string // modules whose include statements are being resolved (cycle detection)
 	Debugger      Debugger
 	IdentResolver func(v string) value.Value
 
